@@ -128,12 +128,14 @@ ADDENDA = {
  'C01': ('Value tables addressed by entry number are compared with the specification as well (R01.5); every counter in '
          'vorbis_synthesis_blockin advances by blocksizes[previous]/4+blocksizes[current]/4 with the flags discovered from '
          'the stores (R01.6); the residue-2 de-interleave cursor starts at the vector position the offset names (R01.7, exact '
-         'evaluation of the cursor initialisers).', ' + linear forms over block sizes + exact evaluation of initialisers'),
+         'evaluation of the cursor initialisers); the bounds the codeword bisection unpacks from saturating hint fields have the '
+         'sign that makes saturation widen the search (R01.8).', ' + linear forms over block sizes + exact evaluation of initialisers'),
  'C02': ('The window pcm_returned <= pcm_current is decided as an invariant of every decode-side writer by a relational '
          'pair-invariant analysis (affine upper bounds in the two fields, half-rate shift made concrete), whatever the form of '
          'the clamps; helper functions an unpacker was split into are analysed as part of it; initialisers clean up only an '
          'object they have wiped (R02.6); a table with one slot per used codebook entry is indexed by the used-entry counter '
-         '(R02.7).',
+         '(R02.7); the capacity of the decoder\'s channel buffers does not depend on the half-rate flag sampled at initialisation '
+         '(R02.8).',
          ' + relational pair-invariant analysis (affine bounds) for the returned/current window'),
  'C03': ('Search loops that run until a sentinel changes have no iteration that leaves the state unchanged (R03.2: K4 '
          'refinement of the exit conditions in the stuck state), and every libvorbis function vorbisfile hands a vorbis_info to '
@@ -141,7 +143,8 @@ ADDENDA = {
          'before it is dereferenced (R03.6); the link index changes only while the decoder is cleared (R03.7, K5 typestate); a '
          'packet is read only after a positive packetout/packetpeek filled it (R03.8, K4 forked on the result class); a page '
          'object is used only while libogg\'s sync buffer still holds it -- valid from a fetch that found a page until the next '
-         'call that can reach ogg_sync_buffer, with the fetch helpers verified rather than assumed (R03.9).',
+         'call that can reach ogg_sync_buffer, with the fetch helpers verified rather than assumed (R03.9); per-link tables are '
+         'indexed by the link counter only where the handle is known seekable (R03.10).',
          ' + stuck-state analysis of sentinel loops + null-entry analysis of the info accessors'),
  'C05': ('The managed-bitrate path hands out one of the PACKETBLOBS encodings (R05.6), residue entry numbers are mixed-radix '
          'numbers with digits below the radix (R05.7), and submap bundles pair each slot with one channel identically in '
@@ -163,7 +166,8 @@ ADDENDA = {
          'wherever its variable subscripts a per-link table (R09.7: K4, with the lemma that the remaining total is 0 at link 0).'
          ' A link\'s serial number and data offset in the per-link tables derive from reads of the stream state whose last '
          'writer is that link\'s header fetch (R09.8), and so does the lower bound handed to the next bisection level (R09.9); the loop that searches for the end of a link '
-         'is left only through its guard or an error return (R09.10).',
+         'is left only through its guard or an error return (R09.10); vf->current_link indexes a per-link table only behind a '
+         'seekable test, also one made by a callee that refuses a streaming handle (R09.11).',
          ' + K4 range obligations on link searches + provenance/last-writer analysis'),
  'C10': ('_fetch_headers performs the stream set-up of the link in every call that reports success, whatever state the handle '
          'was entered in (R10.4); serial numbers in the link table see their link\'s header fetch (R10.5); a fetched page is '
@@ -188,7 +192,8 @@ ADDENDA = {
          'keeps the terminator inside the allocation (R16.5).', ''),
  'C17': ('The channel count used for interleaving is the decoded link\'s and is not stale across the packet fetch (R17.5, R17.6); '
          'the data return is at least one frame (R17.7) and every float-to-int conversion argument is within the range of int, i.e. '
-         'samples are clipped before they are converted (R17.8, K4 floating intervals through the clip helper).', ''),
+         'samples are clipped before they are converted (R17.8, K4 floating intervals through the clip helper); the info that '
+         'supplies the channel count is indexed by the link counter only on a seekable handle (R17.9).', ''),
  'C18': ('Decode scratch from the block arena is zeroed for every channel whatever the arena held (R18.6); a memset that follows an '
          'allocation of the same lvalue covers the allocated size (R18.7).', ''),
  'C19': ('The packet fetch reports end-of-file to the lap helpers only at a link boundary (R19.5) and vorbis_synthesis_lapout '
